@@ -131,4 +131,121 @@ theorem gen_varint_s64_length (fuel : Nat) (undef : Nat → BitVec 64) (n : BitV
   simp only []
   rw [gen_varint_u64_length fuel _ hf, Res.bind_val]
 
+/-- what a typed source decoder hands back for a verdict of the model: the caller's variable is written only on success -/
+def AgreesST (w : Nat) (tail : Src) (input : List (BitVec 8)) (maxo : Nat) (cell : BitVec w) (d : Dec)
+    (r : Res (BitVec 32 × Src × List (BitVec w))) : Prop :=
+  match d with
+  | .ok v c => r = Res.val (BitVec.ofNat 32 c, octets (input.drop c) ++ tail, [BitVec.ofNat w v])
+  | .err .eilseq => r = Res.val (-(84#32), octets (input.drop maxo) ++ tail, [cell])
+  | .err .enodata => r = Res.val (tailRc tail, tailRest tail, [cell])
+  | _ => False
+
+theorem ofNat32_nonneg (c : Nat) (h : c ≤ 10) : (BitVec.ofNat 32 c).toInt ≥ (0#32).toInt := by
+  have : c = 0 ∨ c = 1 ∨ c = 2 ∨ c = 3 ∨ c = 4 ∨ c = 5 ∨ c = 6 ∨ c = 7 ∨ c = 8 ∨ c = 9 ∨ c = 10 := by omega
+  rcases this with h | h | h | h | h | h | h | h | h | h | h <;> subst h <;> decide
+
+theorem tailRc_neg (tail : Src) (ht : TailOk tail) : ¬ (tailRc tail).toInt ≥ (0#32).toInt := by
+  have z : (0#32).toInt = 0 := by decide
+  rw [z]
+  rcases ht with h | ⟨rc, rest, h, hneg⟩
+  · subst h; decide
+  · subst h; simp only [tailRc]; omega
+
+/-- the count the model reports never exceeds the fuel it was given -/
+theorem sourceLoop_ok_le (e : Err) : ∀ (input : List (BitVec 8)) (fuel i acc v c : Nat),
+    sourceLoop e input fuel i acc = .ok v c → c ≤ i + fuel := by
+  intro input
+  induction input with
+  | nil => intro fuel i acc v c h; cases fuel <;> simp [sourceLoop] at h
+  | cons d rest ih =>
+    intro fuel i acc v c h
+    cases fuel with
+    | zero => simp [sourceLoop] at h
+    | succ fuel =>
+      unfold sourceLoop at h
+      simp only [] at h
+      by_cases hd : varint_done d = true
+      · rw [if_pos hd] at h; cases h; omega
+      · rw [if_neg hd] at h; have := ih _ _ _ _ _ h; omega
+
+/-- `varint_u64_from_source(source, n)` (and, bit for bit, `varint_s64_from_source`) -/
+theorem gen_varint_u64_from_source (fuel : Nat) (undef : Nat → BitVec 64) (tail : Src) (ht : TailOk tail)
+    (input : List (BitVec 8)) (cell : BitVec 64) (hf : 10 < fuel) :
+    AgreesST 64 tail input 10 cell (varint_u64_from_source .enodata input)
+      (Ufw.Gen.VarintLoops.varint_u64_from_source fuel undef (octets input ++ tail) [cell]) := by
+  unfold Ufw.Gen.VarintLoops.varint_u64_from_source varint_u64_from_source
+  simp only []
+  rw [ten]
+  have hag := gen_varint_from_source fuel undef tail ht input 10#64 (tr 64 (undef 0)) (by decide)
+    (by have : (10#64).toNat = 10 := by decide
+        omega)
+  have h10 : (10#64).toNat = MAX64 := by decide
+  rw [h10] at hag
+  cases hd : varint_from_source .enodata input MAX64 with
+  | ok v c =>
+    rw [hd] at hag
+    unfold AgreesS at hag; simp only [] at hag
+    have hc : c ≤ 10 := by
+      have := sourceLoop_ok_le .enodata input MAX64 0 0 v c hd
+      simpa [MAX64] using this
+    rw [hag, Res.bind_val]
+    simp only [cellOf, List.headD_cons, ofNat32_nonneg c hc, if_true]
+    rw [store_in [cell] 0 _ _ (by simp)]
+    unfold AgreesST
+    simp
+  | err e =>
+    rw [hd] at hag
+    unfold AgreesS at hag
+    cases e <;> simp only [] at hag <;> first
+      | exact hag.elim
+      | (obtain ⟨j, hj⟩ := hag
+         rw [hj, Res.bind_val]
+         have n84 : ¬ (-(84#32) : BitVec 32).toInt ≥ (0#32).toInt := by decide
+         simp only [cellOf, List.headD_cons, n84, tailRc_neg tail ht, if_false]
+         unfold AgreesST
+         simp [MAX64])
+  | oob => rw [hd] at hag; exact hag.elim
+
+/-- `varint_u32_from_source(source, n)`: the value masked to 32 bits, written only on success -/
+theorem gen_varint_u32_from_source (fuel : Nat) (undef : Nat → BitVec 64) (tail : Src) (ht : TailOk tail)
+    (input : List (BitVec 8)) (cell : BitVec 32) (hf : 10 < fuel) :
+    AgreesST 32 tail input 5 cell (varint_u32_from_source .enodata input)
+      (Ufw.Gen.VarintLoops.varint_u32_from_source fuel undef (octets input ++ tail) [cell]) := by
+  unfold Ufw.Gen.VarintLoops.varint_u32_from_source varint_u32_from_source
+  simp only []
+  rw [five]
+  have hag := gen_varint_from_source fuel undef tail ht input 5#64 (tr 64 (undef 0)) (by decide)
+    (by have : (5#64).toNat = 5 := by decide
+        omega)
+  have h5 : (5#64).toNat = MAX32 := by decide
+  rw [h5] at hag
+  cases hd : varint_from_source .enodata input MAX32 with
+  | ok v c =>
+    rw [hd] at hag
+    unfold AgreesS at hag; simp only [] at hag
+    have hc : c ≤ 10 := by
+      have := sourceLoop_ok_le .enodata input MAX32 0 0 v c hd
+      simp [MAX32] at this; omega
+    rw [hag, Res.bind_val]
+    simp only [cellOf, List.headD_cons, ofNat32_nonneg c hc, if_true, Dec.map]
+    rw [store_in [cell] 0 _ _ (by simp), mask32]
+    unfold AgreesST u32
+    have : BitVec.ofNat 32 (BitVec.ofNat 64 v).toNat = BitVec.ofNat 32 (v % 2 ^ 32) := by
+      apply BitVec.eq_of_toNat_eq
+      simp
+    rw [this]
+    simp
+  | err e =>
+    rw [hd] at hag
+    unfold AgreesS at hag
+    cases e <;> simp only [] at hag <;> first
+      | exact hag.elim
+      | (obtain ⟨j, hj⟩ := hag
+         rw [hj, Res.bind_val]
+         have n84 : ¬ (-(84#32) : BitVec 32).toInt ≥ (0#32).toInt := by decide
+         simp only [cellOf, List.headD_cons, n84, tailRc_neg tail ht, if_false, Dec.map]
+         unfold AgreesST
+         simp [MAX32])
+  | oob => rw [hd] at hag; exact hag.elim
+
 end Ufw.Tie.VarintLoops
